@@ -223,3 +223,76 @@ def generate(ctx):
         run.oblige("inverts-the-diabatic-log-law: u*/k (ln(zm/z0) + psi_m) = ws", loops.scalar_eq(back, ws.at(k)), kind="post", view="value",
                    assuming=rng + keep)
     ctx.explore("km.estimateZ0", t_z0, P)
+
+    # estimateZ0 WITH directional smoothing: every 1-degree bin takes the median of the raw estimates whose wind direction
+    # lies in the CIRCULAR window [kk - h, kk + 1 + h) (mod 360); hence a common rotation of all wind directions by whole
+    # degrees only renames the bins.  np.nanmedian is opaque (a function of the selected values); the k-th call of the
+    # loop belongs to bin k (structural premise); wind directions in [0, 360), 1 <= h <= 89: the fixed 90/270 sectors of the
+    # wrap-around make the window circular exactly for these half widths (for 89 < h <= 90 the obligations of bins 0 and 270 are
+    # refuted by SMT models -- wd = 270 resp. wd in [0, 1) is not wrapped -- and for wider windows more bins; the default is 22
+    # and the window is not among the property's quantified inputs: interpretation note F18, DESIGN 8.4).
+    def window(kk, w, h):
+        return sym.Or(*[((kk - h) <= (w + m)) & ((w + m) < (kk + 1 + h)) for m in (-360, 0, 360)])
+
+    def t_z0_smooth(run, default_window=False):
+        run.scope = "ffm_kormann_meixner.estimateZ0[smoothing%s]" % (", default window" if default_window else "")
+        n = sym.fresh_int("n_obs")
+        run.assume(n >= 1)
+        zm, ws, wd, ust, L = [arrays.fresh_array(nm, [n], "float") for nm in ("zm", "ws", "wd", "ustar", "mo_len")]
+        if default_window:
+            # the value every caller gets that does not pass the parameter: no decision of the code can depend on a symbolic
+            # window here, so a version that branches on the window per bin is still decided for the default
+            h = Num(22)
+        else:
+            h = sym.fresh_real("half_wd_win")
+            run.assume((h >= 1) & (h <= 89))
+        ns["len"] = values.slen
+        raw = harness.call(run, ns["estimateZ0"], zm, ws, wd, ust, L, half_wd_win=0).value
+        calls = []
+        Mf = z3.Function("bin_median", z3.IntSort(), z3.RealSort())
+
+        def nanmedian(a):
+            calls.append(a)
+            return Num(Mf(z3.IntVal(len(calls) - 1)), True)
+        saved = getattr(ns["np"], "nanmedian", None)
+        ns["np"].nanmedian = nanmedian
+        try:
+            out = harness.call(run, ns["estimateZ0"], zm, ws, wd, ust, L, half_wd_win=h).value
+        finally:
+            if saved is not None:
+                ns["np"].nanmedian = saved
+        j = sym.fresh_int("j")
+        wj = num(wd.at(j))
+        rng = [(j >= 0) & (j < n), wj >= 0, wj < 360]
+        run.oblige("one-median-per-1-degree-bin", SBool(len(calls) == 360), kind="post", meta={"structural": True})
+        for kk, a in enumerate(calls[:360]):
+            ok = isinstance(a, Arr) and a.ndim == 1 and a.axes[0].masked
+            if not ok:
+                run.oblige("bin-%d.median-of-a-selection" % kk, SBool(False), kind="post", meta={"structural": True})
+                continue
+            m = a.axes[0].mask
+            run.oblige("smoothing.bin-%03d.selects-the-circular-window" % kk, sym.sbool(m.at(j)) == window(Num(kk), wj, h), kind="post", assuming=rng)
+            if kk in (0, 45, 89, 90, 180, 270, 271, 338, 359):
+                run.oblige("smoothing.bin-%03d.median-of-the-raw-estimates" % kk, loops.scalar_eq(a.at(j), raw.at(j)), kind="post", view="value",
+                           assuming=rng + [sym.sbool(m.at(j))])
+        kb = sym.fresh_int("bin")
+        run.oblige("smoothing.observation-gets-the-median-of-its-own-bin", loops.scalar_eq(out.at(j), Num(Mf(kb.z()), True)), kind="post",
+                   assuming=rng + [(kb >= 0) & (kb < 360), num(kb) <= wj, wj < num(kb) + 1])
+        run.cover("path")
+    ctx.explore("km.estimateZ0.smoothing", t_z0_smooth, P)
+    ctx.explore("km.estimateZ0.smoothing[default window]", lambda run: t_z0_smooth(run, default_window=True), P)
+
+    # rotation lemma over that contract: rotating every wind direction by r whole degrees maps the window of bin kk onto the
+    # window of bin kk + r (mod 360) and every observation into the bin shifted by r
+    kk, r, a_, b_ = z3.Ints("rot_kk rot_r rot_a rot_b")
+    w, hh = z3.Reals("rot_w rot_h")
+    kk2, w2 = kk + r - 360 * a_, w + z3.ToReal(r) - 360 * z3.ToReal(b_)
+
+    def W(k_, w_):
+        return z3.Or(*[z3.And(z3.ToReal(k_) - hh <= w_ + m, w_ + m < z3.ToReal(k_) + 1 + hh) for m in (-360, 0, 360)])
+    prem = z3.And(kk >= 0, kk < 360, r >= 0, r < 360, w >= 0, w < 360, hh >= 1, hh <= 89, a_ >= 0, a_ <= 1, b_ >= 0, b_ <= 1,
+                  kk2 >= 0, kk2 < 360, w2 >= 0, w2 < 360)
+    ctx.lemma("km.estimateZ0.smoothing.rotation-maps-windows-onto-windows", SBool(z3.Implies(prem, W(kk, w) == W(kk2, w2))), props=P)
+    kb_ = z3.Int("rot_bin")
+    ctx.lemma("km.estimateZ0.smoothing.rotation-shifts-the-bin", SBool(z3.Implies(z3.And(prem, z3.ToReal(kb_) <= w, w < z3.ToReal(kb_) + 1),
+                                                                                 z3.And(z3.ToReal(kb_ + r - 360 * b_) <= w2, w2 < z3.ToReal(kb_ + r - 360 * b_) + 1))), props=P)
